@@ -237,12 +237,13 @@ struct Variant {
 
 fn variants() -> Vec<Variant> {
     let mut v = Vec::new();
+    // `take` is not a variant: the statement calls it saving, the API calls it taking, and a
+    // take that left the override in place would make save-and-restore a no-op pair - the
+    // sentence about it would have no content.  So taking removes the override.
     for a in [true, false] {
         for b in [true, false] {
-            for c in [true, false] {
-                for d in 0..3u8 {
-                    v.push(Variant { global_sets_local: a, toggle_toggles_local: b, take_resets: c, toggle_inherit: d });
-                }
+            for d in 0..3u8 {
+                v.push(Variant { global_sets_local: a, toggle_toggles_local: b, take_resets: true, toggle_inherit: d });
             }
         }
     }
@@ -736,7 +737,7 @@ fn check(tier: &str, seed: u64) -> i32 {
             "preemptions_by_site": sites,
             "runs_with_hook_granularity": sum("fine_runs"),
             "runs_with_overlapping_operations": sum("overlaps"),
-            "oracle": "per-thread override model + linearizability of the global boolean register (write/flip/read) over the recorded invoke/return stamps, accepted if linearizable under at least one of 24 deterministic variants of the unspecified own-thread side effects",
+            "oracle": "per-thread override model + linearizability of the global boolean register (write/flip/read) over the recorded invoke/return stamps, accepted if linearizable under at least one of 12 deterministic variants of the unspecified own-thread side effects",
             "components": {"real_code": ["tracing-enabled (all functions, real std thread_local!, real std AtomicBool behind the seam)"], "stubs": ["the OS scheduler (replaced by the baton)", "tracing-subscriber layer (not exercised)"]},
             "exhaustive": false
         },
